@@ -354,10 +354,14 @@ func (c *Client) SendIQ(ctx context.Context, iq *stanza.IQ) (chan stanza.IQ, err
 	if iq.Attrs.Type != stanza.IQTypeSet && iq.Attrs.Type != stanza.IQTypeGet {
 		return nil, ErrCanOnlySendGetOrSetIq
 	}
+	// Register the result route before the request is written: the response may arrive
+	// as soon as the request is on the wire.
+	result := c.router.NewIQResultRoute(ctx, iq.Attrs.Id)
 	if err := c.Send(iq); err != nil {
+		c.router.cancelIQResultRoute(iq.Attrs.Id, result)
 		return nil, err
 	}
-	return c.router.NewIQResultRoute(ctx, iq.Attrs.Id), nil
+	return result, nil
 }
 
 // SendRaw sends an XMPP stanza as a string to the server.
